@@ -380,6 +380,45 @@ def h_roundtrip_other_types(eng, names, exps):
             eng.prove(ureg.parse_units(format(u, spec), as_delta=False) == u, f"{rname}:unit-roundtrip:{spec or 'default'}")
 
 
+def h_context_and_zero_d(eng):
+    """(concrete, float registry) the short formats use the unit's own symbol also while a context
+    redefines the unit's value; a 0-d array magnitude is formatted like the scalar it holds"""
+    import numpy as np
+    import pint
+    from pint import Context
+
+    ureg = pint.UnitRegistry()
+    ctx = Context("shortfoot")
+    ctx.redefine("feet = 0.3 * meter")
+    ctx.redefine("pound = 0.5 * kilogram")
+    ureg.add_context(ctx)
+    unit = ureg.Unit("foot*pound/second**2")
+    want = {spec: format(unit, spec) for spec in ("~D", "~C", "~P", "~H", "~L", "D", "P", "~")}
+    eng.prove(want["~D"] == "ft * lb / s ** 2" and want["~P"] == "ft·lb/s²", "context-format:reference-rendering")
+    with ureg.context("shortfoot"):
+        for spec, text in want.items():
+            eng.prove(format(unit, spec) == text, f"context-format:{spec}:same-text-inside-the-context")
+            eng.prove(format(ureg.Unit("foot*pound/second**2"), spec) == text, f"context-format:{spec}:unit-built-inside-the-context")
+        q = ureg.Quantity(2.5, "megafoot")
+        eng.prove(format(q, "~P") == "2.5 Mft" and format(q, "~D") == "2.5 Mft", "context-format:prefixed-unit-first-met-inside")
+    eng.prove(all(format(unit, spec) == text for spec, text in want.items()), "context-format:same-text-afterwards")
+    # 0-d arrays
+    forced = pint.UnitRegistry(force_ndarray=True)
+    plain = pint.UnitRegistry()
+    for val in (1234.56789, 1e-7, -0.5):
+        for spec in (".2fP", ".3eP", ".2fD", ".3eD", ".2fC", ".2f~P", ".1fH", "P", "D", ".4gP"):  # (the L layout with a 0-d array: known finding K30)
+            ref = format(plain.Quantity(val, "meter/second"), spec)
+            for label, q in (("force_ndarray", forced.Quantity(val, "meter/second")), ("np.array(x)", plain.Quantity(np.array(val), "meter/second"))):
+                try:
+                    got = format(q, spec)
+                except Exception as ex:  # noqa: BLE001
+                    got = type(ex).__name__
+                eng.prove(got == ref, f"zero-d-magnitude:{label}:{spec}:{val!r}")
+        forced.default_format = plain.default_format = ".1fP"
+        eng.prove(str(forced.Quantity(val, "meter")) == str(plain.Quantity(val, "meter")), f"zero-d-magnitude:default_format:{val!r}")
+        forced.default_format = plain.default_format = ""
+
+
 def h_dimensionless(eng):
     ureg = regs.default(eng)
     u = ureg.Unit("")
@@ -441,4 +480,6 @@ def cases(tier, seed):
     for names, exps in [(["meter"], [1]), (["meter", "second"], [1, -2]), (["meter", "second"], [0.5, -1.5]), (["newton", "kelvin", "hour"], [2, -1, 1]), (["gram", "meter"], [-1, 0.25]), (["second"], [-1])]:
         out.append(Case("H09.b", "other-types:" + "*".join(f"{n}^{e}" for n, e in zip(names, exps)), M, "h_roundtrip_other_types", {"names": names, "exps": exps}, kind="conc"))
     out.append(Case("H09.c", "dimensionless", M, "h_dimensionless", {}, validate=1))
+    out.append(Case("H09.d", "context-and-zero-d", M, "h_context_and_zero_d", {}, kind="conc"))
+    out.append(Case("H09.obs", "observed", "pvlib.harness.observed", "h_c09", {}, kind="conc"))
     return out
